@@ -542,8 +542,13 @@ func (m *pnftMonitor) AfterBlock(x *Exec) {
 		var got []string
 		for _, p := range res.Pnfts {
 			got = append(got, p.Id)
-			single, err := x.C.App.PnftKeeper.GetPNFT(x.C.Ctx(), id, p.Id)
-			if err != nil || single.String() != p.String() {
+			// the single-item view as a client gets it: the PNFT query handler (not the keeper method underneath)
+			var single *pnfttypes.Pnft
+			sres, err := x.C.App.PnftKeeper.PNFT(sdk.WrapSDKContext(x.C.Ctx()), &pnfttypes.QueryPNFTRequest{DenomId: id, Id: p.Id})
+			if err == nil {
+				single = sres.Pnft
+			}
+			if err != nil || single == nil || single.String() != p.String() {
 				x.Flag("C12-listing", fmt.Sprintf("PNFTs(%q) lists an item that disagrees with the single-item view: %v / %v", id, p, single))
 			}
 			// what the single-item view reports must be what was minted (creator, name, description, uri, hash, data, time)
